@@ -246,6 +246,8 @@ class ContiguousBlockAllocator():
         # // this 'if' prevents an error if a Buffer object is freed twice
         if addr is None:
             return
+        if not 0 <= addr - self.addr_offset < self.size:
+            return  # Not an address of this allocator.
         block = self._array[addr - self.addr_offset]
         if block is not None and block.used:
             block.used = False
